@@ -593,6 +593,167 @@ def run(chk):
     if uses < 2:
         raise core.AnalysisBroken("EclIO::EGrid: fewer than 2 uses of the NNC1/NNC2 members found")
 
+    # ---- C13.zcorn: where the eight corner depths of cell (i,j,k) live in ZCORN
+    r_zc = chk.rule("C13.zcorn", "ZCORN layout: corner c = (cx, cy, cz) of cell (i,j,k) is element 2i + cx + 2nx(2j + cy) + 4 nx ny (2k + cz).  The generators for DZV/DEPTHZ and DZ/TOPS grids write exactly these eight elements per cell (top face before, bottom face after the layer thickness is added; the DEPTHZ node is the one at (i+cx, j+cy)), and both getCellCorners implementations read them in the same corner order", floor=32)
+
+    def zc_index(cx, cy, cz, I_=sy.S("i"), J_=sy.S("j"), K_=sy.S("k")):
+        NX2, NY2 = sy.S("NX"), sy.S("NY")
+        return sy.add(sy.mul(sy.I(2), I_), sy.I(cx), sy.mul(sy.I(2), NX2, sy.add(sy.mul(sy.I(2), J_), sy.I(cy))), sy.mul(sy.I(4), NX2, NY2, sy.add(sy.mul(sy.I(2), K_), sy.I(cz))))
+    for gen in ("makeZcornDzvDepthz", "makeZcornDzTops"):
+        gf = [f for f in fx.fns if f["n"] == gen and f.get("body")]
+        if len(gf) != 1:
+            raise core.AnalysisBroken("EclipseGrid::%s: %d definitions" % (gen, len(gf)))
+        gf = gf[0]
+        dims_of = {}
+        for n in walk(gf["body"]):
+            if n["k"] == "Decl":
+                for v in n["vars"]:
+                    t = show(strip(v.get("init") or {}))
+                    if t.endswith("getNX()"):
+                        dims_of[v["n"]] = "NX"
+                    elif t.endswith("getNY()"):
+                        dims_of[v["n"]] = "NY"
+                    elif t.endswith("getNZ()"):
+                        dims_of[v["n"]] = "NZ"
+        fors = [n for n in walk(gf["body"]) if n["k"] == "For"]
+        lvs = {}
+        for lp in fors:
+            for d in walk(lp.get("init") or {}):
+                if d["k"] == "Decl":
+                    for v in d["vars"]:
+                        bound = [dims_of.get(x.get("n")) for x in walk(lp["cond"]) if x.get("k") == "Ref" and x.get("n") in dims_of]
+                        if bound:
+                            lvs[v["n"]] = {"NX": "i", "NY": "j", "NZ": "k"}[bound[0]]
+        inner = [lp for lp in fors if not any(x["k"] == "For" for x in walk(lp["body"]))]
+        if len(inner) != 1 or sorted(lvs.values()) != ["i", "j", "k"]:
+            raise core.AnalysisBroken("%s: the triple loop over the cells was not recognised (%s)" % (gen, lvs))
+        zname = [p_["n"] for p_ in gf.get("params") or []]
+
+        def leaf_z(e, lvs=lvs, dims_of=dims_of):
+            if e.get("k") == "Ref" and e.get("n") in lvs:
+                return sy.S(lvs[e["n"]])
+            if e.get("k") == "Ref" and e.get("n") in dims_of:
+                return sy.S(dims_of[e["n"]])
+            sb = None
+            if e.get("k") == "Idx":
+                sb = (strip(e["c"][0]), e["c"][1])
+            elif e.get("k") == "OpCall" and e.get("op") == "[]" and len(e.get("a") or []) == 2:
+                sb = (strip(e["a"][0]), e["a"][1])
+            if sb and sb[0].get("k") == "Ref" and sb[0].get("n") not in ("zcorn",):
+                it = ev_z.term(sb[1], env_z)
+                return sy.S("%s[%s]" % (sb[0]["n"], sy.show_term(it))) if it is not None else None
+            return None
+        locs_z = {v["n"] for n in walk(gf["body"]) if n["k"] == "Decl" for v in n["vars"]} - set(lvs) - set(dims_of)
+        ev_z = sy.Eval(leaf_z, locs_z)
+        env_z = {}
+        # locals of the enclosing loops (z = tops[ind] in the DZ/TOPS generator)
+        for lp in fors:
+            if lp is inner[0]:
+                continue
+            for st in stmt_list(lp["body"]):
+                if st["k"] == "Decl":
+                    env_z = ev_z.run([st], env_z)
+        writes = []
+        for st in stmt_list(inner[0]["body"]):
+            lhs = None
+            if st["k"] == "Bin" and st.get("asg") and st.get("op") == "=":
+                l_ = strip(st["c"][0])
+                if l_.get("k") in ("Idx", "OpCall") and show(l_).startswith("zcorn["):
+                    idx = l_["c"][1] if l_["k"] == "Idx" else l_["a"][1]
+                    writes.append((ev_z.term(idx, env_z), ev_z.term(st["c"][1], env_z), st["l"]))
+                    continue
+            env_z = ev_z.run([st], env_z)
+        want_idx = {}
+        for cz in (0, 1):
+            for cy in (0, 1):
+                for cx in (0, 1):
+                    want_idx[zc_index(cx, cy, cz)] = (cx, cy, cz)
+        got_corners = []
+        for it, vt, ln in writes:
+            c = want_idx.get(it)
+            key = "%s:%s" % (gen, "corner%s" % (c,) if c else "write@%d" % (ln - gf["l"]))
+            got_corners.append(c)
+            chk.instance(r_zc, key, sample=dict(generator=gen, index=sy.show_term(it), corner=c, value=sy.show_term(vt)))
+            if c is None:
+                chk.violation(r_zc, key, "%s writes ZCORN element %s, which is none of the eight corner positions 2i+cx + 2nx(2j+cy) + 4 nx ny (2k+cz) of cell (i,j,k): the depth lands in another cell's corner" % (gen, sy.show_term(it)), gf["file"], ln)
+                continue
+            cx, cy, cz = c
+            if gen == "makeZcornDzvDepthz":
+                node = sy.add(sy.S("i"), sy.I(cx), sy.mul(sy.add(sy.S("j"), sy.I(cy)), sy.add(sy.S("NX"), sy.I(1))))
+                want_v = sy.add(sy.S("%s[%s]" % (zname[1], sy.show_term(node))), sy.S("z[k]"), *( [sy.S("%s[k]" % zname[0])] if cz else []))
+            else:
+                cellidx = sy.add(sy.S("i"), sy.mul(sy.S("j"), sy.S("NX")), sy.mul(sy.S("k"), sy.S("NX"), sy.S("NY")))
+                colidx = sy.add(sy.S("i"), sy.mul(sy.S("j"), sy.S("NX")))
+                want_v = sy.add(sy.S("%s[%s]" % (zname[1], sy.show_term(colidx))), *([sy.S("%s[%s]" % (zname[0], sy.show_term(cellidx)))] if cz else []))
+            if vt != want_v:
+                chk.violation(r_zc, key + ":value", "%s stores %s in corner %s of cell (i,j,k); the depth there is %s" % (gen, sy.show_term(vt), c, sy.show_term(want_v)), gf["file"], ln)
+        if sorted(x for x in got_corners if x) != sorted(want_idx.values()):
+            chk.violation(r_zc, gen + ":all", "%s does not write each of the eight corners of a cell exactly once (corners written: %s)" % (gen, got_corners), gf["file"], inner[0]["l"])
+
+    # readers: zind[c] of both getCellCorners implementations
+    for f in fx.fns:
+        if f["n"] != "getCellCorners" or not f.get("body"):
+            continue
+        zloc = [v for n in walk(f["body"]) if n["k"] == "Decl" for v in n["vars"] if v["n"] == "zind"]
+        pz = [p_ for p_ in f["params"] if "array<double" in (p_.get("t") or "") or "array<double," in (p_.get("t") or "")]
+        if not zloc or "vector<float>" in f.get("sig", ""):
+            continue      # forwarding overload / the per-layer variant that works on one layer of ZCORN
+        ijk = f["params"][0]["n"]
+
+        def leaf_r(e, ijk=ijk):
+            t = show(decast(e)).replace(" ", "")
+            m = re.fullmatch(r"%s\[(\d)\]" % ijk, t)
+            if m:
+                return sy.S("ijk"[int(m.group(1))])
+            if re.fullmatch(r"(this\.)?(nijk|dims|m_dims)\[0\]|(this\.)?getNX\(\)", t):
+                return sy.S("NX")
+            if re.fullmatch(r"(this\.)?(nijk|dims|m_dims)\[1\]|(this\.)?getNY\(\)", t):
+                return sy.S("NY")
+            return None
+        ev_r = sy.Eval(leaf_r, {"zind", "pind", "z_offset", "p_offset", "res_shift"} | {v["n"] for n in walk(f["body"]) if n["k"] == "Decl" for v in n["vars"]})
+        env_r = {}
+        npush = 0
+        for st in stmt_list(f["body"]):
+            if st["k"] == "For":
+                iv = [(v["n"], strip(v.get("init") or {}).get("v")) for d in walk(st.get("init") or {}) if d["k"] == "Decl" for v in d["vars"]]
+                c = strip(st["cond"])
+                body1 = stmt_list(st["body"])
+                if len(iv) == 1 and iv[0][1] == 0 and c.get("k") == "Bin" and c.get("op") == "<" and strip(c["c"][1]).get("k") == "Int" and len(body1) == 1:
+                    trip = strip(c["c"][1])["v"]
+                    b1 = body1[0]
+                    touches = any(x.get("k") == "Ref" and x.get("n") == "zind" for x in walk(b1))
+                    writes_z = (b1["k"] == "Bin" and b1.get("asg") and show(strip(b1["c"][0])).startswith("zind[")) or (b1["k"] == "MCall" and b1.get("m") == "push_back" and strip(b1.get("obj") or {}).get("n") == "zind")
+                    if touches and writes_z:
+                        for v_ in range(trip):
+                            e2 = dict(env_r)
+                            e2[iv[0][0]] = sy.I(v_)
+                            ev_r.locals.add(iv[0][0])
+                            if b1["k"] == "Bin":
+                                l_ = strip(b1["c"][0])
+                                idx = l_["c"][1] if l_["k"] == "Idx" else l_["a"][1]
+                                it = ev_r.term(idx, e2)
+                                if it is not None and it[0] == "int":
+                                    env_r["zind[%d]" % it[1]] = ev_r.term(b1["c"][1], e2)
+                            else:
+                                env_r["zind[%d]" % npush] = ev_r.term(b1["a"][0], e2)
+                                npush += 1
+                        continue
+                continue
+            if st["k"] == "MCall" and st.get("m") == "push_back" and strip(st.get("obj") or {}).get("n") == "zind" and st.get("a"):
+                env_r["zind[%d]" % npush] = ev_r.term(st["a"][0], env_r)
+                npush += 1
+                continue
+            if st["k"] in ("Decl", "Bin"):
+                env_r = ev_r.run([st], env_r)
+        for c in range(8):
+            cx, cy, cz = c & 1, (c >> 1) & 1, (c >> 2) & 1
+            got = env_r.get("zind[%d]" % c)
+            want = zc_index(cx, cy, cz)
+            key = "%s@%d:zind[%d]" % (f["q"].split("::")[-2], f["l"], c)
+            chk.instance(r_zc, key, sample=dict(function=f["q"], corner=(cx, cy, cz), index=sy.show_term(got)))
+            if got != want:
+                chk.violation(r_zc, key, "%s takes the depth of corner %d = (cx,cy,cz) = (%d,%d,%d) from ZCORN element %s; the layout has it at %s: the cell is built from depths of other corners or cells" % (f["q"], c, cx, cy, cz, sy.show_term(got), sy.show_term(want)), f["file"], f["l"])
+
     # ---- C13.pillar: corner coordinates are interpolated along the cell's own pillar at the corner's own depth
     r_pl = chk.rule("C13.pillar", "getCellCorners (EclipseGrid and both EclIO::EGrid versions): corner e of X (Y) is top + (bottom - top) / (zt - zb) * (zt - Z[e]) with top/bottom the x (y) entries 0/3 (1/4) and zt/zb entries 2/5 of the pillar record, the depth taken from Z at the SAME corner e; for a vertical pillar (zt == zb) it is the top value", floor=12)
     for f in fx.fns:
